@@ -174,8 +174,13 @@ func (s *recScheduler) ScheduleJob(ctx context.Context, class, name string, at t
 		job(ctx)
 		s.ev("end", class, name, at, nil)
 	}
+	// recorded before the call: a job that is already due may start before ScheduleJob returns
+	ev := &JobEvent{Op: "schedule", Name: name, Class: class, At: at, Step: simrt.Step(), T: simrt.Now(), Inc: simrt.CurrentInc()}
+	s.r.addJob(ev)
 	err := s.inner.ScheduleJob(ctx, class, name, at, wrapped)
-	s.ev("schedule", class, name, at, err)
+	if err != nil {
+		simrt.Crit(func() { ev.Err = true })
+	}
 	return err
 }
 func (s *recScheduler) SchedulePeriodicJob(ctx context.Context, class, name string, rt scheduler.RuntimeFunc, job scheduler.JobFunc) error {
